@@ -89,6 +89,7 @@ class Consumer:
         self.group = conf.get("group.id")
         self.assigned = []
         self.pos = {}
+        self.stored = {}
         self.closed = False
         BROKER.log("new-consumer", self.group, dict(conf))
 
@@ -113,6 +114,7 @@ class Consumer:
                 o = 0
             if o < len(log):
                 self.pos[key] = o + 1
+                self.stored[(tp.topic, tp.partition)] = o + 1   # librdkafka's offset store
                 return _Message(tp.topic, tp.partition, o, log[o])
         return None
 
@@ -139,6 +141,11 @@ class Consumer:
         return _ClusterMeta({t: _TopicMeta(len(p)) for t, p in BROKER.logs.items()})
 
     def close(self):
+        # like librdkafka: with enable.auto.commit the stored offsets are committed on close
+        if str(self.conf.get("enable.auto.commit", "true")).lower() == "true" and not self.closed:
+            for (topic, part), off in self.stored.items():
+                BROKER.committed[(self.group, topic, part)] = off
+                BROKER.log("commit", self.group, topic, part, off)
         self.closed = True
 
 
